@@ -305,6 +305,10 @@ func prepare(needRace, needPlain bool) *build {
 		}
 		if ok {
 			b.degraded = mode.name
+			// Workers learn that goroutines of the code under test may be native:
+			// they then leave out what is EXPECTED to panic (a panic on a native
+			// goroutine of the library cannot be recovered and would kill them).
+			os.Setenv("SIM_NATIVE", "1")
 			if mode.name != "" {
 				fmt.Printf("simcheck: instrumentation degraded to %q because: %s\n", mode.name, firstLines(lastErr, 6))
 			}
